@@ -316,7 +316,11 @@ func describeVal(e *Engine, v ssa.Value, depth int) string {
 		if x.Op == token.MUL {
 			switch ad := x.X.(type) {
 			case *ssa.FieldAddr:
-				return describeVal(e, ad.X, depth+1) + "." + fieldName(ad.X.Type(), ad.Field)
+				base := describeVal(e, ad.X, depth+1)
+				if al, ok := ad.X.(*ssa.Alloc); ok && al.Comment != "" {
+					base = al.Comment
+				}
+				return base + "." + fieldName(ad.X.Type(), ad.Field)
 			case *ssa.IndexAddr:
 				return describeVal(e, ad.X, depth+1) + "[" + describeVal(e, ad.Index, depth+1) + "]"
 			case *ssa.Alloc:
